@@ -10,6 +10,10 @@ CHECKS = {
          'Trusted: the oracle (constraints transcribed from the statement), CPython; handlers of one event have distinct priorities; handlers do not call flush().',
          'bounded-exhaustive program enumeration on the real dispatcher (explicit-state, implementation as transition relation)', 'DESIGN.md 6/C02'),
 }
+CHECKS['C01'] = ('E4+E1', 'model_checking',
+    '(a) the full product of forests (<=3 components) x component channels x handler sets (named, channel override, catch-all, global, inherited with/without override, implicit Component method) x (event name, firing component, target channel incl. instances) is fired on fresh real components and judged by the delivery predicate of the statement; (b) explicit-state BFS over register/unregister/addHandler/removeHandler/probe histories (canonical-state dedup) probes every root of every reached state on a fresh replay and compares with a ghost forest and with a cold build. Exhaustive below the bounds.',
+    'Trusted: delivery predicate transcribed from the statement; unregister treated as a macro-op (behaviour during a pending unregistration is judged in C07); single target channel per fire.',
+    'explicit-state BFS over operation histories of real components + bounded-exhaustive configuration product', 'DESIGN.md 6/C01')
 NOT_YET = {}
 def main():
     props = [json.loads(l) for l in open(os.path.join(HERE, 'properties.jsonl'))]
